@@ -34,7 +34,7 @@ const fnHeartbeat = model.FunctionTypeDeviceDiagnosisHeartbeatData
 
 // tolerances of the oracle (DESIGN §4 C16 "O", calibration in Appendix A.6)
 const (
-	gapFactorNum, gapFactorDen = 3, 2                 // mean gap <= timeout * 1.5 ...
+	gapFactorNum, gapFactorDen = 3, 2                  // mean gap <= timeout * 1.5 ...
 	gapSlack                   = 50 * time.Millisecond // ... + 50 ms
 	singleGapExtra             = 50 * time.Millisecond // a single (not averaged) gap gets this on top
 	countSlack                 = 2                     // refreshes in a window <= window/period + 2
@@ -346,14 +346,12 @@ type mark struct {
 	Op        op
 	Call, Ret time.Time
 	Running   bool // model state after the operation
-	Note      string
 }
 
 type window struct {
-	Kind       string // running | silent
-	From, To   time.Time
-	After      string // the operation that opened it
-	FirstOfRun bool
+	Kind     string // running | silent
+	From, To time.Time
+	After    string // the operation that opened it
 }
 
 var timeoutsCommon = []time.Duration{100 * time.Millisecond, 200 * time.Millisecond, 300 * time.Millisecond}
@@ -405,7 +403,9 @@ func runHistory(t world.TB, timeout time.Duration, npeers int, lateAdd bool, ops
 
 	var marks []mark
 	var hist []string
-	history := func() string { return "\n history (timeout " + timeout.String() + ", period " + period.String() + "):\n  " + strings.Join(hist, "\n  ") }
+	history := func() string {
+		return "\n history (timeout " + timeout.String() + ", period " + period.String() + "):\n  " + strings.Join(hist, "\n  ")
+	}
 	running := false
 	ntWhileRunning := false
 
@@ -451,7 +451,7 @@ func runHistory(t world.TB, timeout time.Duration, npeers int, lateAdd bool, ops
 		// already running since AddLocalFeature; the window opens now
 		now := time.Now()
 		running = true
-		marks = append(marks, mark{Op: op{Kind: "add"}, Call: now, Ret: now, Running: true, Note: "earlier"})
+		marks = append(marks, mark{Op: op{Kind: "add"}, Call: now, Ret: now, Running: true})
 		hist = append(hist, "add      before the subscriptions (window opens at 0 ms)")
 	}
 	checkRunning("after AddFunctionType(heartbeat)")
@@ -538,6 +538,23 @@ func runHistory(t world.TB, timeout time.Duration, npeers int, lateAdd bool, ops
 	judgeHistory(t, fx, baseline, marks, end, history)
 }
 
+// noteMargin keeps the worst observed ratio of a mean gap to its bound in the evidence (how much
+// room the timing tolerance left in this run).
+var worstMargin struct {
+	sync.Mutex
+	permille int64
+}
+
+func noteMargin(mean, bound time.Duration) {
+	r := int64(mean) * 1000 / int64(bound)
+	worstMargin.Lock()
+	if r > worstMargin.permille {
+		worstMargin.permille = r
+		world.SetExtra("worst_mean_gap_permille_of_bound", r)
+	}
+	worstMargin.Unlock()
+}
+
 func overBucket(over time.Duration) string {
 	for _, b := range []time.Duration{5, 10, 20, 50, 100, 200} {
 		if over <= b*time.Millisecond {
@@ -614,7 +631,16 @@ func judgeHistory(t world.TB, fx *fixture, baseline seen, marks []mark, end time
 	}
 
 	// (2) every refresh notified to every subscriber: same counters (> c0) on all connections,
-	// and every counter DataCopy showed was notified
+	// and every counter DataCopy showed was notified. Not asserted for a refresh that completes
+	// after RemoveEntity was called: whether a removed entity still has subscribers is left open.
+	var removedAt time.Time
+	for _, m := range marks {
+		if m.Op.Kind == "remove" {
+			removedAt = m.Call
+			break
+		}
+	}
+	beforeRemoval := func(s seen) bool { return removedAt.IsZero() || s.At.Before(removedAt) }
 	setOf := func(l []seen) map[uint64]bool {
 		m := map[uint64]bool{}
 		for _, s := range l {
@@ -628,20 +654,20 @@ func judgeHistory(t world.TB, fx *fixture, baseline seen, marks []mark, end time
 	for i := range notifs {
 		sets[i] = setOf(notifs[i])
 	}
-	for i := 1; i < len(sets); i++ {
-		for c := range sets[0] {
-			if !sets[i][c] {
-				world.Fail(t, "C16/notify/missing-on-one-subscriber", "refresh #%d was notified on connection 1 but not on connection %d%s", c, i+1, render())
+	for i := range notifs {
+		for _, s := range notifs[i] {
+			if s.Counter <= c0 || !beforeRemoval(s) {
+				continue
 			}
-		}
-		for c := range sets[i] {
-			if !sets[0][c] {
-				world.Fail(t, "C16/notify/missing-on-one-subscriber", "refresh #%d was notified on connection %d but not on connection 1%s", c, i+1, render())
+			for j := range sets {
+				if !sets[j][s.Counter] {
+					world.Fail(t, "C16/notify/missing-on-one-subscriber", "refresh #%d was notified on connection %d but not on connection %d%s", s.Counter, i+1, j+1, render())
+				}
 			}
 		}
 	}
 	for _, s := range samples {
-		if s.HasCtr && s.Counter > c0 {
+		if s.HasCtr && s.Counter > c0 && beforeRemoval(s) {
 			for i := range sets {
 				if !sets[i][s.Counter] {
 					world.Fail(t, "C16/notify/refresh-not-notified", "the data showed refresh #%d but connection %d was never notified of it%s", s.Counter, i+1, render())
@@ -723,12 +749,36 @@ func judgeHistory(t world.TB, fx *fixture, baseline seen, marks []mark, end time
 				}
 				continue
 			}
-			if mean := in[n-1].At.Sub(w.From) / time.Duration(n); mean > maxGap(fx.timeout) {
+			mean := in[n-1].At.Sub(w.From) / time.Duration(n)
+			noteMargin(mean, maxGap(fx.timeout))
+			if mean > maxGap(fx.timeout) {
 				world.Fail(t, "C16/period/mean-gap-exceeds-timeout", "%s; mean gap %v > %v (announced time-out %v x 1.5 + 50 ms)%s", desc, mean.Round(time.Millisecond), maxGap(fx.timeout), fx.timeout, render())
 			}
 			if tail := w.To.Sub(in[n-1].At); tail > single {
 				world.Fail(t, "C16/period/no-refresh-while-running", "%s; nothing during the last %v of the window, the announced time-out is %v%s", desc, tail.Round(time.Millisecond), fx.timeout, render())
 			}
 		}
+	}
+}
+
+// TestSequentialScenarios: fixed histories (restart, stop-then-silence, removal-then-silence, a
+// time-out above 2 s) judged by the same oracle; the seconds-long deterministic tier.
+func TestSequentialScenarios(t *testing.T) {
+	ms := time.Millisecond
+	w := func(k int) op { return op{Kind: "wait", K: k} }
+	start, stop, running, remove := op{Kind: "start"}, op{Kind: "stop"}, op{Kind: "running"}, op{Kind: "remove"}
+	cases := []struct {
+		timeout time.Duration
+		peers   int
+		lateAdd bool
+		ops     []op
+	}{
+		{100 * ms, 1, false, []op{w(2), start, w(3), start, start, w(2), stop}},
+		{100 * ms, 2, true, []op{stop, stop, w(3), start, w(2), stop, running, start}},
+		{200 * ms, 2, false, []op{w(1), remove, running, stop, w(3)}},
+		{2100 * ms, 1, true, []op{w(3), start, w(2)}},
+	}
+	for _, c := range cases {
+		world.Guard(func() { runHistory(t, c.timeout, c.peers, c.lateAdd, c.ops) })
 	}
 }
